@@ -112,9 +112,11 @@ AuthShapes == {[cred |-> "cookie", age |-> 0], [cred |-> "cookie", age |-> 8 * 3
                \* an IP-restricted certificate that itself lives for a year (e.g. minted by an external CA the operator trusts)
                [cred |-> "ipcert_long", age |-> 0]}
 
-Worlds == {"plain", "ed25519ca", "realm", "ext1", "ext2", "groups"}
+\* ext3: a flag-style operator extension (empty value, like the five standard ones) next to an ordinary one
+Worlds == {"plain", "ed25519ca", "realm", "ext1", "ext2", "ext3", "groups"}
 ExtOf(w, norm) == CASE w = "ext1" -> {<<"login@example.com", norm>>}
                     [] w = "ext2" -> {<<"login@example.com", norm>>, <<"role-" \o norm, "u=" \o norm \o ";fixed">>}
+                    [] w = "ext3" -> {<<"no-touch-required@example.com", "">>, <<"home", norm>>}
                     [] OTHER -> {}
 
 Req(path, user, key, dur, auth, target, world) ==
